@@ -14,26 +14,35 @@ Definition dec_dict (d : sdict) : dict := map (fun kv => (dec (fst kv), dec (snd
 
 Record case := mk {
   c_ops : sdict;                          (* the assignments p[k] = v, in order *)
-  c_steps : list (option err * sdict);    (* per assignment: exception kind (None = accepted)
-                                             and [(k, p[k]) for k in p] afterwards *)
+  c_errs : list (option err);             (* per assignment: exception kind (None = accepted) *)
+  c_states : list (option sdict);         (* per assignment: [(k, p[k]) for k in p] afterwards; to keep the
+                                             case files small the harness writes it (Some) only after the last
+                                             assignment, after a refused one and before a refused one *)
   c_dump : string;                        (* p.dump() after the last assignment *)
   c_nows_str : result (list sdict);       (* list(Deb822.iter_paragraphs(dump, strict={'whitespace-separates-paragraphs': False})) *)
-  c_nows_file : result (list sdict);      (* the same from io.StringIO(dump) *)
-  c_ws_str : result (list sdict);         (* default strictness, str *)
-  c_ws_file : result (list sdict);        (* default strictness, file object *)
+  c_nows_file : option (result (list sdict));   (* the same from io.StringIO(dump); None = equal to c_nows_str *)
+  c_ws_str : option (result (list sdict));      (* default strictness, str; None = equal to c_nows_str *)
+  c_ws_file : option (result (list sdict));     (* default strictness, file object; None = equal to c_ws_str *)
 }.
 
 Definition kv_eqb (a b : str * str) : bool := pair_eqb str_eqb str_eqb a b.
 Definition dict_eqb : dict -> dict -> bool := list_eqb kv_eqb.
 Definition dicts_eqb : list dict -> list dict -> bool := list_eqb dict_eqb.
 Definition oerr_eqb : option err -> option err -> bool := option_eqb err_eqb.
-Definition step_eqb (a b : option err * dict) : bool := pair_eqb oerr_eqb dict_eqb a b.
 
 Definition obs_dicts (o : result (list sdict)) : result (list dict) :=
   match o with Ok l => Ok (map dec_dict l) | Err e => Err e end.
 
-Definition dec_steps (s : list (option err * sdict)) : list (option err * dict) :=
-  map (fun x => (fst x, dec_dict (snd x))) s.
+Definition or_else {A} (o : option A) (d : A) : A := match o with Some x => x | None => d end.
+
+(** the four re-reads, with the sharing undone *)
+Definition r_nows_str (c : case) := obs_dicts (c_nows_str c).
+Definition r_nows_file (c : case) := obs_dicts (or_else (c_nows_file c) (c_nows_str c)).
+Definition r_ws_str (c : case) := obs_dicts (or_else (c_ws_str c) (c_nows_str c)).
+Definition r_ws_file (c : case) := obs_dicts (or_else (c_ws_file c) (or_else (c_ws_str c) (c_nows_str c))).
+
+Definition dec_states (s : list (option sdict)) : list (option dict) :=
+  map (fun x => match x with Some d => Some (dec_dict d) | None => None end) s.
 
 (** * The model run *)
 
@@ -52,57 +61,75 @@ Fixpoint model_steps (d : dict) (ops : list (str * str)) : list (option err * di
     let (r, df) := model_steps (snd st) ops' in (st :: r, df)
   end.
 
+(** a recorded state must be the model's; an unrecorded one is not compared *)
+Fixpoint states_agree (m : list dict) (o : list (option dict)) : bool :=
+  match m, o with
+  | [], [] => true
+  | d :: m', s :: o' =>
+      (match s with Some d' => dict_eqb d d' | None => true end) && states_agree m' o'
+  | _, _ => false
+  end.
+
 Definition agree (c : case) : bool :=
   let (steps, d) := model_steps [] (dec_dict (c_ops c)) in
   let text := dump d in
-  list_eqb step_eqb steps (dec_steps (c_steps c))
+  list_eqb oerr_eqb (map fst steps) (c_errs c)
+  && states_agree (map snd steps) (dec_states (c_states c))
   && str_eqb text (dec (c_dump c))
-  && result_eqb dicts_eqb (iter_paragraphs CDeb822 false (InStr text)) (obs_dicts (c_nows_str c))
-  && result_eqb dicts_eqb (iter_paragraphs CDeb822 false (InFile text)) (obs_dicts (c_nows_file c))
-  && result_eqb dicts_eqb (iter_paragraphs CDeb822 true (InStr text)) (obs_dicts (c_ws_str c))
-  && result_eqb dicts_eqb (iter_paragraphs CDeb822 true (InFile text)) (obs_dicts (c_ws_file c)).
+  && result_eqb dicts_eqb (iter_paragraphs CDeb822 false (InStr text)) (r_nows_str c)
+  && result_eqb dicts_eqb (iter_paragraphs CDeb822 false (InFile text)) (r_nows_file c)
+  && result_eqb dicts_eqb (iter_paragraphs CDeb822 true (InStr text)) (r_ws_str c)
+  && result_eqb dicts_eqb (iter_paragraphs CDeb822 true (InFile text)) (r_ws_file c).
 
 (** * The property *)
 
 Definition is_some {A} (o : option A) : bool := match o with Some _ => true | None => false end.
 
 (** Every assignment: a refusal is a ValueError and leaves names and values as
-    they were; a value that ends in LF, has an empty continuation line, or a
-    continuation line not starting with space/tab is refused. *)
-Fixpoint steps_ok (prev : dict) (ops : list (str * str)) (steps : list (option err * dict)) : bool :=
-  match ops, steps with
-  | [], [] => true
-  | kv :: ops', (e, after) :: steps' =>
+    they were (both states must have been recorded); a value that ends in LF,
+    has an empty continuation line, or a continuation line not starting with
+    space/tab is refused. *)
+Fixpoint steps_ok (prev : option dict) (ops : list (str * str)) (errs : list (option err))
+         (states : list (option dict)) : bool :=
+  match ops, errs, states with
+  | [], [], [] => true
+  | kv :: ops', e :: errs', st :: states' =>
       (match e with
-       | Some e' => err_eqb e' ValueError && dict_eqb after prev
+       | Some e' =>
+           err_eqb e' ValueError
+           && match prev, st with Some p, Some a => dict_eqb a p | _, _ => false end
        | None => true
        end)
       && (if c08_dom (snd kv) && spec_rejects (snd kv) then is_some e else true)
-      && steps_ok after ops' steps'
-  | _, _ => false
+      && steps_ok st ops' errs' states'
+  | _, _, _ => false
   end.
 
-Definition final_state (steps : list (option err * dict)) : dict :=
-  match rev steps with
-  | (_, d) :: _ => d
-  | [] => []
+(** the mapping after the last assignment (always recorded) *)
+Definition final_state (states : list (option dict)) : option dict :=
+  match rev states with
+  | s :: _ => s
+  | [] => Some []
   end.
 
 (** The paragraph the implementation ended with (every value in it was accepted
     by the implementation), dumped by the implementation and read back. *)
 Definition reread_ok (c : case) : bool :=
-  let d := final_state (dec_steps (c_steps c)) in
-  if para_dom d && negb (is_nil d) then
-    one_para_with_names (names d) (obs_dicts (c_nows_str c))
-    && one_para_with_names (names d) (obs_dicts (c_nows_file c))
-    && (if para_no_blank_cont d then
-          one_para_with_names (names d) (obs_dicts (c_ws_str c))
-          && one_para_with_names (names d) (obs_dicts (c_ws_file c))
-        else true)
-  else true.
+  match final_state (dec_states (c_states c)) with
+  | None => false
+  | Some d =>
+    if para_dom d && negb (is_nil d) then
+      one_para_with_names (names d) (r_nows_str c)
+      && one_para_with_names (names d) (r_nows_file c)
+      && (if para_no_blank_cont d then
+            one_para_with_names (names d) (r_ws_str c)
+            && one_para_with_names (names d) (r_ws_file c)
+          else true)
+    else true
+  end.
 
 Definition holds (c : case) : bool :=
-  steps_ok [] (dec_dict (c_ops c)) (dec_steps (c_steps c)) && reread_ok c.
+  steps_ok (Some []) (dec_dict (c_ops c)) (c_errs c) (dec_states (c_states c)) && reread_ok c.
 
 Definition bad_agree (cs : list case) : list N := bad agree cs.
 Definition bad_holds (cs : list case) : list N := bad holds cs.
